@@ -276,7 +276,9 @@ def check(tier="quick", seed=0):
         "try:\n    L.load_module_from_file_object(io.BytesIO(data), 'x.pyc'); r = 'returned'\n"
         "except ImportError:\n    r = 'ImportError'\n"
         "except BaseException as e:\n    r = 'ESC ' + type(e).__name__\n"
-        "print(r, resource.getrusage(resource.RUSAGE_SELF).ru_maxrss // 1024)\n")
+        # VmHWM is the peak of THIS address space (ru_maxrss would inherit the peak of the forking parent across exec)
+        "hwm = [l for l in open('/proc/self/status') if l.startswith('VmHWM')][0].split()[1]\n"
+        "print(r, int(hwm) // 1024)\n")
     amp = {}
     for which in ("host", "portable"):
         env = dict(os.environ, PYTHONPATH=repo, PYTHONDONTWRITEBYTECODE="1")
